@@ -1,9 +1,21 @@
 (* C04 — minimize/maximize return a feasible assignment with the true optimum (branch and bound
-   of search/mode.rs; the root LP step and the optimisation fast path are outside this model, see
-   DESIGN.md known finding D10).  Statements only. *)
+   of search/mode.rs).  Statements only.
+
+   The root LP step of search_with_timeout_and_memory (finding D10, repaired: the LP vertex is tentative) enters as an
+   ORACLE refinement, Model/LpRoot.v: the step proposes nothing or SOME store s_lp (the copy of the variables that
+   apply_lp_solution fixed to the LP vertex); the engine searches s_lp first and falls back to the untouched root s when that
+   yields nothing.  ORACLE ASSUMPTION: nothing is assumed about the f64 simplex, to_lp_problem or apply_lp_solution beyond
+   `vertex_ok` (s_lp is a well-formed sub-store of s: the copy is changed through the contracting setters only).  For every
+   such answer the result is a solution of the model, "no solution" is exact and the search terminates
+   (lp_tentative_sound (a), minimize_lp_ok_iff_sat); an answer of the fallback phase is that of the plain search, hence optimal
+   (lp_tentative_sound (c)); an answer of the FIRST phase is optimal provided the LP bound is valid for the model and attained
+   (lp_tentative_sound (b), minimize_lp_optimal + lp_bound_attained) -- that proviso is the part of the repaired code that still
+   trusts the LP (as does its early exit on an LP verdict `Infeasible`, which is outside this model: the oracle then answers
+   before any search) and is judged by the check's brute-force oracle, not proved.  The optimisation fast path is outside
+   this model. *)
 Require Import Selen.Model.Prelude Selen.Model.Dom Selen.Model.Views Selen.Model.PropDefs.
-Require Import Selen.Model.Props.Basic Selen.Model.Propagate Selen.Model.Search Selen.Model.EngineSpec.
-Require Import Selen.Proofs.Props.BasicProofs Selen.Proofs.EngineProofs.
+Require Import Selen.Model.Props.Basic Selen.Model.Propagate Selen.Model.Search Selen.Model.EngineSpec Selen.Model.LpRoot.
+Require Import Selen.Proofs.Props.BasicProofs Selen.Proofs.EngineProofs Selen.Proofs.LpRootProofs.
 
 Theorem minimize_optimal : forall pick obj ps s t,
   Forall good ps -> scoped ps (length s) -> wf_store s -> view_ok obj ->
@@ -49,3 +61,83 @@ Example c04_nonvacuous :
   minimize fifo (VOpp (VVar 2)) [mk_add (VVar 0) (VVar 1) 2; mk_lt (VVar 0) (VVar 1)] [[0;1;2;3];[-1;1;3];[0;1;2;3;4]]
   = Some (Some [[1]; [3]; [4]]).
 Proof. vm_compute. reflexivity. Qed.
+
+(* ---- the repaired root LP step (tentative vertex with fallback), for EVERY answer of the LP oracle *)
+
+(* (a) the answer is a solution of the model; (b) it is optimal when it attains a valid bound of the model (the LP bound);
+   (c) when the oracle gave no vertex, or the first phase found nothing below it, the answer is that of the plain search on
+   the root, to which minimize_optimal applies *)
+Theorem lp_tentative_sound : forall pick vertex obj ps s t,
+  Forall good ps -> scoped ps (length s) -> wf_store s -> view_ok obj ->
+  (forall x, uvar obj = Some x -> (x < length s)%nat) ->
+  vertex_ok vertex s ->
+  minimize_lp pick vertex obj ps s = Some (Some t) ->
+  sol ps s (asg_of t) /\
+  (forall s_lp b, vertex = Some s_lp -> minimize pick obj ps s_lp = Some (Some t) ->
+     (forall a, sol ps s a -> b <= vsem obj a) -> vsem obj (asg_of t) <= b ->
+     forall a, sol ps s a -> vsem obj (asg_of t) <= vsem obj a) /\
+  ((vertex = None \/ exists s_lp, vertex = Some s_lp /\ minimize pick obj ps s_lp = Some None) ->
+     minimize pick obj ps s = Some (Some t) /\ forall a, sol ps s a -> vsem obj (asg_of t) <= vsem obj a).
+Proof. exact (LpRootProofs.lp_tentative_sound BasicProofs.mk_leq_good BasicProofs.mk_gt_good BasicProofs.mk_lt_good). Qed.
+Print Assumptions lp_tentative_sound.
+
+(* what is answered: the first-phase solution if there is one, otherwise the plain search on the root *)
+Theorem lp_tentative_cases : forall pick s_lp obj ps s,
+  minimize_lp pick None obj ps s = minimize pick obj ps s /\
+  minimize_lp pick (Some s_lp) obj ps s =
+    match minimize pick obj ps s_lp with
+    | None => None
+    | Some None => minimize pick obj ps s
+    | Some (Some t) => Some (Some t)
+    end.
+Proof. intros. split; [reflexivity|apply LpRootProofs.minimize_lp_cases]. Qed.
+Print Assumptions lp_tentative_cases.
+
+(* Ok exactly when satisfiable, and the search terminates, whatever the LP oracle proposed: what D10 violated *)
+Theorem minimize_lp_ok_iff_sat : forall pick vertex obj ps s,
+  Forall good ps -> scoped ps (length s) -> wf_store s -> view_ok obj -> vertex_ok vertex s ->
+  (minimize_lp pick vertex obj ps s = Some None <-> forall a, ~ sol ps s a) /\ minimize_lp pick vertex obj ps s <> None.
+Proof. exact (LpRootProofs.minimize_lp_ok_iff_sat BasicProofs.mk_leq_good BasicProofs.mk_gt_good BasicProofs.mk_lt_good). Qed.
+Print Assumptions minimize_lp_ok_iff_sat.
+
+(* full optimality under the one assumption left about the LP: a solution found below the vertex is optimal for the model;
+   lp_bound_attained derives it from "b is a valid bound of the model and the vertex store holds the objective at or below b" *)
+Theorem minimize_lp_optimal : forall pick vertex obj ps s t,
+  Forall good ps -> scoped ps (length s) -> wf_store s -> view_ok obj ->
+  (forall x, uvar obj = Some x -> (x < length s)%nat) ->
+  vertex_ok vertex s -> first_phase_optimal pick vertex obj ps s ->
+  minimize_lp pick vertex obj ps s = Some (Some t) ->
+  sol ps s (asg_of t) /\ forall a, sol ps s a -> vsem obj (asg_of t) <= vsem obj a.
+Proof. exact (LpRootProofs.minimize_lp_optimal BasicProofs.mk_leq_good BasicProofs.mk_gt_good BasicProofs.mk_lt_good). Qed.
+Print Assumptions minimize_lp_optimal.
+
+Theorem maximize_lp_optimal : forall pick vertex obj ps s t,
+  Forall good ps -> scoped ps (length s) -> wf_store s -> view_ok obj ->
+  (forall x, uvar obj = Some x -> (x < length s)%nat) ->
+  vertex_ok vertex s -> first_phase_optimal pick vertex (VOpp obj) ps s ->
+  maximize_lp pick vertex obj ps s = Some (Some t) ->
+  sol ps s (asg_of t) /\ forall a, sol ps s a -> vsem obj a <= vsem obj (asg_of t).
+Proof. exact (LpRootProofs.maximize_lp_optimal BasicProofs.mk_leq_good BasicProofs.mk_gt_good BasicProofs.mk_lt_good). Qed.
+Print Assumptions maximize_lp_optimal.
+
+Theorem lp_bound_attained : forall pick s_lp obj ps s b,
+  Forall good ps -> scoped ps (length s) -> view_ok obj -> sub_store s_lp s -> wf_store s_lp ->
+  (forall a, sol ps s a -> b <= vsem obj a) ->
+  (forall a, inst a s_lp -> vsem obj a <= b) ->
+  first_phase_optimal pick (Some s_lp) obj ps s.
+Proof. exact (LpRootProofs.lp_bound_attained BasicProofs.mk_leq_good BasicProofs.mk_gt_good BasicProofs.mk_lt_good). Qed.
+Print Assumptions lp_bound_attained.
+
+(* D10's witness shape on the model: x, y in 0..5, 2x + 2y <= 5 (as x + y <= 2), maximize x; the fractional LP vertex (2.5, 0)
+   cannot be applied to the integer domains, so the oracle answers None -- or, with an integral vertex that the remaining
+   constraints refute ([[5];[0]] here), the first phase finds nothing: both ways the answer is the optimum (2,0);
+   before the repair the implementation answered "no solution" *)
+Example c04_lp_fallback_nonvacuous :
+  maximize_lp fifo None (VVar 0) [mk_add (VVar 0) (VVar 1) 2; mk_leq (VVar 2) (VConst 2)] [[0;1;2;3;4;5];[0;1;2;3;4;5];[0;1;2;3;4;5;6;7;8;9;10]]
+  = Some (Some [[2]; [0]; [2]]) /\
+  maximize_lp fifo (Some [[5];[0];[0;1;2;3;4;5;6;7;8;9;10]]) (VVar 0) [mk_add (VVar 0) (VVar 1) 2; mk_leq (VVar 2) (VConst 2)] [[0;1;2;3;4;5];[0;1;2;3;4;5];[0;1;2;3;4;5;6;7;8;9;10]]
+  = Some (Some [[2]; [0]; [2]]) /\
+  (* a vertex that holds a solution is answered at once *)
+  maximize_lp fifo (Some [[2];[0];[0;1;2;3;4;5;6;7;8;9;10]]) (VVar 0) [mk_add (VVar 0) (VVar 1) 2; mk_leq (VVar 2) (VConst 2)] [[0;1;2;3;4;5];[0;1;2;3;4;5];[0;1;2;3;4;5;6;7;8;9;10]]
+  = Some (Some [[2]; [0]; [2]]).
+Proof. vm_compute. repeat split; reflexivity. Qed.
